@@ -37,6 +37,8 @@ class PCA(Transformer):
         Random seed for reproducibility.
     solver_kwargs: dict
         Additional keyword arguments for the SVD solver.
+    solver: {"auto", "full", "randomized"}, default="auto"
+        Solver to use for the SVD computation.
 
     """
 
@@ -50,6 +52,7 @@ class PCA(Transformer):
         feature_name: str = "feature",
         random_state: np.random.Generator | int | None = None,
         solver_kwargs: dict = {},
+        solver: str = "auto",
     ):
         super().__init__(sample_name, feature_name)
 
@@ -59,6 +62,7 @@ class PCA(Transformer):
         self.compute_eagerly = compute_eagerly
         self.random_state = random_state
         self.solver_kwargs = solver_kwargs
+        self.solver = solver
 
         # Check whether Whitener is identity transformation
         self.is_identity = not use_pca
@@ -107,6 +111,7 @@ class PCA(Transformer):
                 n_modes=self.n_modes,
                 init_rank_reduction=self.init_rank_reduction,
                 compute=self.compute_eagerly,
+                solver=self.solver,
                 random_state=self.random_state,
                 sample_name=self.sample_name,
                 feature_name=self.feature_name,
